@@ -6,12 +6,13 @@ SECTIONS = ["ops"]
 LEAN_MODULES = ["QExPy.Props.C05", "QExPy.Props.C03"]
 THEOREMS = ["QExPy.World.C05_recalc_fresh", "QExPy.World.C05_recalc_redraws",
             "QExPy.World.C05_deriv_current", "QExPy.World.C05_read_stable",
-            "QExPy.World.C05_sim_kept", "QExPy.World.C05_memo_kept", "QExPy.World.read_settles", "QExPy.C03_diff_correct"]
+            "QExPy.World.C05_sim_kept", "QExPy.World.C05_memo_kept", "QExPy.World.read_settles", "QExPy.World.C05_setRel_eq",
+            "QExPy.World.C05_setRel_nonneg", "QExPy.C03_diff_correct"]
 RULE = ("seeded histories (5-40 ops) over formulas assembled through real intermediate results "
         "(2-4 measurements, 1-5 operators, reuse of intermediates): set value / uncertainty / "
-        "correlation (function and method form), reset correlations, read, derivative(), "
+        "correlation (function and method form; uncertainties also through relative_error, incl. a deliberate scenario: two correlated sources of one result, one revised relatively), reset correlations, read, derivative(), "
         "recalculate, global and per-quantity method switches, sample-size changes; derivative "
-        "reads vs the state machine under the FB bound, Monte Carlo reads by identity pattern, "
+        "reads vs the state machine under the FB bound, Monte Carlo reads by identity pattern and against mean/std of the simulation the quantity keeps, "
         "and after every recalculate() the same formula built afresh with the real library "
         "(value, uncertainty, derivatives, unit). Non-trivial = a source of a nested formula "
         "changed and the outer quantity was recalculated and read; distinct by hash")
